@@ -75,6 +75,8 @@ def positions(ds, names: dict[str, str], combo: dict, index: Optional[tuple], ru
         return sel
     for pos, (k, v) in enumerate(combo.items()):
         d = names[k]
+        if d == "readout_time" and d not in ds.dims and "time" in ds.dims:
+            d = "time"  # the parallel path renames the swept readout-time dimension
         if d in ds.dims:
             vals = list(ds[d].values)
             hits = [j for j, c in enumerate(vals) if _eq(c, v)]
